@@ -99,10 +99,13 @@ func Diff(d1, d2 string, o DiffOpts) (res *DiffResult) {
 			res.Entries = append(res.Entries, de)
 		}
 	}
-	add("removed", cd.RemovedConnections())
-	add("added", cd.AddedConnections())
-	add("changed", cd.ChangedConnections())
-	add("unchanged", cd.UnchangedConnections())
+	// the four lists are fetched first and read afterwards, as a caller holding a diff result does: a list handed out earlier must
+	// not change because another accessor was called
+	removed, added, changed, unchanged := cd.RemovedConnections(), cd.AddedConnections(), cd.ChangedConnections(), cd.UnchangedConnections()
+	add("removed", removed)
+	add("added", added)
+	add("changed", changed)
+	add("unchanged", unchanged)
 	if o.Format != "" && err == nil {
 		out, ferr := da.ConnectivityDiffToString(cd)
 		res.Output = out
